@@ -389,3 +389,43 @@ pub fn operation_has_abstract_field_without_id(schema: &Schema, operation_text: 
         _ => false,
     })
 }
+
+
+/// Does some selection set of the operation hold two fields with the same response key but a
+/// different name or different arguments? (The recorded response-key collisions of C12/C09: e.g.
+/// `child(id: "a b")` and `child(id: "a_b")` both get `child____id___s_a_b`. A server can return only
+/// one value under that key, so no conforming response exists for such an operation.)
+pub fn operation_has_response_key_collision(operation_text: &str) -> bool {
+    fn walk(set: &SelectionSet) -> bool {
+        let mut seen: Vec<(String, String)> = vec![];
+        for item in &set.items {
+            match item {
+                Selection::Field(f) => {
+                    let key = f.alias.clone().unwrap_or_else(|| f.name.clone());
+                    let ident = format!("{}({:?})", f.name, f.arguments);
+                    if seen.iter().any(|(k, i)| *k == key && *i != ident) {
+                        return true;
+                    }
+                    seen.push((key, ident));
+                    if let Some(sub) = &f.selection_set {
+                        if walk(sub) {
+                            return true;
+                        }
+                    }
+                }
+                Selection::InlineFragment(fr) => {
+                    if walk(&fr.selection_set) {
+                        return true;
+                    }
+                }
+                Selection::FragmentSpread(_) => {}
+            }
+        }
+        false
+    }
+    let Ok(doc) = refgql::parse_executable(operation_text) else { return false };
+    doc.definitions.iter().any(|d| match d {
+        refgql::Definition::Operation(o) => walk(&o.selection_set),
+        _ => false,
+    })
+}
